@@ -1,5 +1,6 @@
 import MitmVerif.Model.C20
 import MitmVerif.Model.C20_B64
+import MitmVerif.Model.C20_Ht
 import Driver.Proto
 open MitmVerif Driver MitmVerif.C20
 
@@ -200,6 +201,13 @@ def stepLine (line : String) : String :=
   | ["b2a", h] =>
     match hexOr h with
     | some b => showBytes ((B64.b2a (b.map (·.toNat))).map UInt8.ofNat)
+    | none => "bad-op"
+  | ["htparse", t] =>
+    match parseCps t with
+    | some t => match Ht.parse t with
+      | some es => let us := Ht.users es
+        if us.isEmpty then "ok -" else "ok " ++ ",".intercalate (us.map (fun x => showCps x.1 ++ "=" ++ showCps x.2))
+      | none => "err"
     | none => "bad-op"
   | ["decbs", h] =>
     match hexOr h with
